@@ -289,10 +289,14 @@ impl<'a> StatementAnalyzer<'a> {
             }
         }
         self.program().expect_next_token(Token::Equals)?;
+        let function_type = ValueType::from_variable_name(&function_name);
         self.program().define_function(function_name, arg_names)?;
 
-        // Evaluate the function body.
-        self.evaluate_expression()?;
+        // Evaluate the function body. Calls are typed by the function's name
+        // (see `evaluate_user_defined_function_call`), so the body must yield
+        // the type that name promises.
+        let body_type = self.evaluate_expression()?;
+        function_type.check(body_type)?;
 
         Ok(())
     }
